@@ -30,6 +30,7 @@ type parkedG struct {
 	wait     ObjID
 	id       int
 	parkNext ObjID // allocation counter when parked (objects at or above were allocated later)
+	clock    *Term // the goroutine's own clock when it parked (deterministic clock mode)
 	what     string
 }
 
@@ -104,11 +105,17 @@ func (e *Engine) spawn(st *State, fr *Frame, fv Value, args []Value, c *ssa.Call
 		e.funcsSeen[fn.String()] = true
 	}
 	e.stubsUsed["goroutines: canonical run-to-block schedule (one schedule, not all)"] = true
-	return e.runG(st, g, 0, exits)
+	return e.runG(st, g, 0, exits, nil)
 }
 
 // runG executes goroutine frame g from instruction idx of its current block until it parks or ends.
-func (e *Engine) runG(st *State, g *Frame, idx int, exits *[]exit) []*State {
+func (e *Engine) runG(st *State, g *Frame, idx int, exits *[]exit, gclock *Term) []*State {
+	// every thread has its own clock: waiting in one goroutine does not delay another; a wake-up carries the
+	// waker's time over (the woken goroutine cannot run before the event that woke it)
+	caller := st.clock
+	if gclock != nil && caller != nil {
+		st.clock = e.tc.Ite(e.tc.BVSlt(caller, gclock), gclock, caller)
+	}
 	st.gdepth++
 	var q pqueue
 	var gx []exit
@@ -119,8 +126,15 @@ func (e *Engine) runG(st *State, g *Frame, idx int, exits *[]exit) []*State {
 		x.st.gdepth--
 		switch x.kind {
 		case exitReturn:
+			if caller != nil {
+				x.st.clock = caller
+			}
 			out = append(out, x.st)
 		case exitPark:
+			x.park.clock = x.st.clock
+			if caller != nil {
+				x.st.clock = caller
+			}
 			x.st.parked = append(x.st.parked[:len(x.st.parked):len(x.st.parked)], x.park)
 			out = append(out, x.st)
 		case exitPanic:
@@ -158,7 +172,7 @@ func (e *Engine) wake(st *State, obj ObjID, exits *[]exit) []*State {
 			s.parked = rest
 			g := pg.fr.clone()
 			g.entryNext = s.next // canonicalisation inside this activation must leave older objects alone
-			next = append(next, e.runG(s, g, pg.idx, exits)...)
+			next = append(next, e.runG(s, g, pg.idx, exits, pg.clock)...)
 		}
 		states = next
 	}
